@@ -13,7 +13,10 @@ NSC = ["sub", "Deep", "n1", "_p", "UP", "aux_", "x", "LongerNamespaceComponent",
 ROOTS = ["alpha", "Beta", "g1", "vendor_x", "Z", "regulated"]
 MALFORMED = ["Foo.dsdl", "Foo.1.dsdl", "Foo.1.0.0.0.dsdl", "1.2.Foo.1.0.dsdl", "Foo.x.0.dsdl", "Foo.1.y.dsdl", "abc.Foo.1.0.dsdl",
              ".1.0.dsdl", "Foo..0.dsdl", "Foo.1..dsdl", "Foo.1.0.x.uavcan", "nodots.uavcan", "x.Foo.1.0.uavcan", "Foo.1.0.0.uavcan",
-             "12.Foo.1.dsdl", "Foo.1,0.dsdl", "Foo.one.zero.dsdl"]
+             "12.Foo.1.dsdl", "Foo.1,0.dsdl", "Foo.one.zero.dsdl",
+             # numeric components that merely start (or end) with digits
+             "Foo.1.0rc1.dsdl", "Foo.1x.0.dsdl", "Foo.1.0-draft.dsdl", "7509abc.Foo.1.0.dsdl", "Foo.x1.0.dsdl", "Foo.1.v0.dsdl", "p7509.Foo.1.0.dsdl",
+             "Foo.1.0b.uavcan", "75a09.Foo.1.0.dsdl", "Foo.1e0.0.dsdl", "Foo.0x1.0.dsdl", "Foo.1.0~.dsdl"]
 BAD_DIRS = ["a.b", "x.1", "dot.ted"]
 
 # designations of (targets, roots) for read_files; "supported" ones must succeed, "open" ones are checked for soundness only
